@@ -928,7 +928,7 @@ class DotOperator(BinaryOperator):
                     for i in range(dim1[0]):
                         result += "({}) * ({}) + ".format(
                             self.element_1[i].term(time), self.element_2[i].term(time))
-                    return result[:-3]
+                    return "(" + result[:-3] + ")"
             return "0.0"
 
         # Value
@@ -1165,7 +1165,8 @@ class Time(Function):
 
         :return: time of the simulation: "t"
         """
-        return time
+        # a stock evaluates its equation at "t-model.dt": the time is one term of the surrounding expression
+        return time if time == "t" else "(" + time + ")"
 
 
 class Lookup(Function):
@@ -1485,7 +1486,7 @@ class Factorial(Function):
     def __init__(self, n):
         self.n = n
 
-    def term(self, time="t"): return "1.0*math.factorial(int({}))".format(
+    def term(self, time="t"): return "(1.0*math.factorial(int({})))".format(
         extractTerm(self.n, time))
 
 
